@@ -54,7 +54,7 @@ def plan(tier, seed):
         pools, dseeds = [1, 2, 3, 4, 6, 8, 12, 16], [0, 1, 2, 3]
     for ds in sets:
         shards.append({'name': '%s/sync' % ds, 'fn': 'shard_run', 'args': {'ds': ds, 'pool': 0, 'dseed': 0, 'rep': 0}})
-        for p in (pools if tier == 'thorough' or ds in sets[:2] else [1, 3, 8]):
+        for p in (pools if tier == 'thorough' or ds in sets[:2] or ds == 'pairwise-subsampled-idlike-late-flag' else [1, 3, 8]):
             for d in dseeds:
                 if tier == 'thorough' and p in (2, 4, 6, 12) and d > 1:
                     continue
